@@ -12,6 +12,7 @@ import (
 	"fmt"
 	"os"
 	"regexp"
+	"runtime/debug"
 	"runtime/pprof"
 	"sort"
 	"strings"
@@ -31,12 +32,16 @@ type Op struct {
 	K   string `json:"k"`   // set | inc | dec | rem
 	Key string `json:"key"` // hex of the key bytes ("" = the empty key)
 	V   int64  `json:"v,omitempty"`
+	Nil bool   `json:"nil,omitempty"` // pass the empty key as nil rather than []byte{}
 }
 
 func (o Op) key() []byte {
 	b, err := hex.DecodeString(o.Key)
 	if err != nil {
 		panic(err)
+	}
+	if o.Nil && len(b) == 0 {
+		return nil
 	}
 	if b == nil {
 		b = []byte{}
@@ -45,15 +50,19 @@ func (o Op) key() []byte {
 }
 
 func (o Op) String() string {
+	k := fmt.Sprintf("%q", string(o.key()))
+	if o.Nil {
+		k = "nil"
+	}
 	switch o.K {
 	case "set":
-		return fmt.Sprintf("Set(%q,%d)", string(o.key()), o.V)
+		return fmt.Sprintf("Set(%s,%d)", k, o.V)
 	case "inc":
-		return fmt.Sprintf("Increase(%q,%d)", string(o.key()), o.V)
+		return fmt.Sprintf("Increase(%s,%d)", k, o.V)
 	case "dec":
-		return fmt.Sprintf("Decrease(%q,%d)", string(o.key()), o.V)
+		return fmt.Sprintf("Decrease(%s,%d)", k, o.V)
 	}
-	return fmt.Sprintf("Remove(%q)", string(o.key()))
+	return fmt.Sprintf("Remove(%s)", k)
 }
 
 func opsString(ops []Op) string {
@@ -142,8 +151,12 @@ func image(dump []sumtree.VerifEntry) []byte {
 	return out
 }
 
-func stateHash(img []byte, model Model) [32]byte {
+// stateHash identifies a state of one plan: plan name (the fan-out is not part of the store), raw
+// store content, reference-model content.
+func stateHash(plan string, img []byte, model Model) [32]byte {
 	h := sha256.New()
+	h.Write([]byte(plan))
+	h.Write([]byte{0})
 	h.Write(img)
 	h.Write([]byte{0xff, 0x00, 0xff})
 	var b [8]byte
@@ -162,7 +175,7 @@ func stateHash(img []byte, model Model) [32]byte {
 // ---------------------------------------------------------------- evaluation of one state
 
 // evalState runs the structural oracle and (unless structOnly) every query against the model.
-var debugStructOnly bool
+var debugStructOnly, debugProgress bool
 
 func evalState(w world, dump []sumtree.VerifEntry, model Model, pl *Plan, structOnly bool) (fs []Finding, maxFan int) {
 	structOnly = structOnly || debugStructOnly
@@ -220,6 +233,18 @@ func shrink(pl *Plan, ops []Op, a string) []Op {
 				i--
 			}
 		}
+		// simplest operand: every write becomes Set(k,1) where the failure does not depend on it
+		for i := range cur {
+			if cur[i].K == "rem" || (cur[i].K == "set" && cur[i].V == 1) {
+				continue
+			}
+			cand := append([]Op(nil), cur...)
+			cand[i] = Op{K: "set", Key: cur[i].Key, V: 1, Nil: cur[i].Nil}
+			if ok, _ := failsWith(pl, cand, a); ok {
+				cur = cand
+				changed = true
+			}
+		}
 	}
 	return cur
 }
@@ -245,11 +270,15 @@ func normalise(ops []Op) string {
 	}
 	parts := make([]string, len(ops))
 	for i, o := range ops {
+		kn := name[string(o.key())]
+		if o.Nil {
+			kn = "Enil"
+		}
 		switch o.K {
 		case "rem":
-			parts[i] = "rem(" + name[string(o.key())] + ")"
+			parts[i] = "rem(" + kn + ")"
 		default:
-			parts[i] = fmt.Sprintf("%s(%s,%d)", o.K, name[string(o.key())], o.V)
+			parts[i] = fmt.Sprintf("%s(%s,%d)", o.K, kn, o.V)
 		}
 	}
 	return strings.Join(parts, ";")
@@ -313,7 +342,7 @@ func (e *explorer) path(idx int32, last int) []Op {
 	return rev
 }
 
-const shrinkPerAssertion = 400
+const shrinkPerAssertion = 40
 
 // report turns a finding at the end of ops into a violation (shrunk + normalised signature).
 func (e *explorer) report(f Finding, ops []Op) {
@@ -399,7 +428,7 @@ func (e *explorer) explore() {
 		panic("seed panicked: " + pMsg)
 	}
 	img := image(dump)
-	e.seen.Add(stateHash(img, model))
+	e.seen.Add(stateHash(pl.Name, img, model))
 	e.recs = append(e.recs, rec{-1, -1})
 	r.States++
 	fs, fan := evalState(w, dump, model, pl, false)
@@ -442,7 +471,7 @@ func (e *explorer) explore() {
 					maxTop = post.TopLevel
 				}
 				nimg := image(dump)
-				if !e.seen.Add(stateHash(nimg, nm)) {
+				if !e.seen.Add(stateHash(pl.Name, nimg, nm)) {
 					continue
 				}
 				r.States++
@@ -477,6 +506,9 @@ func (e *explorer) explore() {
 		}
 		depth++
 		frontier = next
+		if debugProgress {
+			fmt.Fprintf(os.Stderr, "  %s depth %d: frontier %d, states %d, transitions %d, pruned %d, %.1fs\n", pl.Name, depth, len(next), len(e.recs), r.Transitions, e.pruned, sinceStart(e.f))
+		}
 		if len(next) == 0 {
 			fix = true
 		}
@@ -551,8 +583,11 @@ func main() {
 	only := flag.String("plans", "", "regexp selecting plans by name (debugging)")
 	list := flag.Bool("list", false, "list plans and exit")
 	prof := flag.String("cpuprofile", "", "write a CPU profile (debugging)")
+	maxDepth := flag.Int("maxdepth", 0, "override every plan's depth bound (debugging)")
+	flag.BoolVar(&debugProgress, "progress", false, "log every BFS level to stderr (debugging)")
 	flag.BoolVar(&debugStructOnly, "structonly", false, "skip the query oracle (debugging: state counting only)")
 	f := core.ParseFlags()
+	debug.SetGCPercent(800)
 	if *prof != "" {
 		pf, err := os.Create(*prof)
 		if err != nil {
@@ -585,6 +620,9 @@ func main() {
 			continue
 		}
 		pl.prepare()
+		if *maxDepth > 0 {
+			pl.MaxDepth = *maxDepth
+		}
 		e := &explorer{f: f, r: r, pl: pl, seen: seen, shrunk: map[string]int{}}
 		before := r.States
 		e.explore()
